@@ -6,8 +6,35 @@ import (
 	"github.com/dgryski/go-spooky"
 )
 
+// keyHash is the hash.Hash32 the writers feed record keys to. It collects the
+// key and hashes it in one go with spooky.Hash32, the function the reader
+// applies to the key it looks up. The streaming digest of go-spooky
+// (spooky.New) must not be used here: for inputs of 96 to 191 bytes it does not
+// return what spooky.Hash32 returns, so records with such keys were written
+// into a table and slot where the reader never looked for them.
+type keyHash struct {
+	key []byte
+}
+
+func (k *keyHash) Write(p []byte) (int, error) {
+	k.key = append(k.key, p...)
+	return len(p), nil
+}
+
+func (k *keyHash) Sum32() uint32 { return spooky.Hash32(k.key) }
+
+func (k *keyHash) Sum(b []byte) []byte {
+	h := k.Sum32()
+	return append(b, byte(h>>24), byte(h>>16), byte(h>>8), byte(h))
+}
+
+func (k *keyHash) Reset() { k.key = k.key[:0] }
+
+func (k *keyHash) Size() int { return 4 }
+
+func (k *keyHash) BlockSize() int { return 1 }
+
 // New returns a new hash computing the cdb checksum.
 func cdbHash() hash.Hash32 {
-	d := spooky.New(0, 0)
-	return d
+	return &keyHash{}
 }
